@@ -169,8 +169,9 @@ def register(claim):
           "(spec cxxEval over the integers, undefined on overflow/UB/division by zero), the model of CPPExpression::evaluate returns exactly that value, "
           "and it can never return a different integer (c07_eval, c07_never_wrong; structural induction). The integer branch of every case of the "
           "operator switch, the bison precedence/associativity table and the operator productions of all three grammar copies are re-extracted on "
-          "every run and decided by the kernel. Values recorded in real databases are compared with the model and with g++.",
-          "Partial: literal lexing, implicit enumerator increment and the LALR parse of minimally parenthesised text are covered by correspondence "
+          "every run and decided by the kernel. Integer literals: a decimal / hexadecimal / binary literal with digit separators anywhere is recorded "
+          "with the positional value of its digits (c07_literal, over a model of get_number). Values recorded in real databases are compared with the models and with g++.",
+          "Partial: character literals, implicit enumerator increment and the LALR parse of minimally parenthesised text are covered by correspondence "
           "and the g++ oracle only. Real/pointer-valued sub-expressions are outside the model.",
           "Lean 4 proof (evaluator refines C++ integer semantics) + extracted operator/precedence facts + differential correspondence with g++ oracle", "DESIGN.md §5 C07")
     claim("C09",
